@@ -4,9 +4,12 @@ EXTENDS MCCore
 AllModes    == { <<d, r>> : d \in BOOLEAN, r \in BOOLEAN }
 RemModes    == { <<d, TRUE>> : d \in BOOLEAN }
 UndRem      == { <<FALSE, TRUE>> }
+UndBoth     == { <<FALSE, r>> : r \in BOOLEAN }
 DirRem      == { <<TRUE, TRUE>> }
 NoKF        == {}
 PinnedKF    == {"KF1"}
 N2          == {1, 2}
 N3          == {1, 2, 3}
+\* the action alphabet of the configuration, for the spec -> code replay
+ASSUME PrintT(<<"ALPHABET", Calls>>)
 ==============================================================================
